@@ -710,3 +710,173 @@ def stripped_by(lang, strip_mask, left=False, right=True):
     if right:
         parts.append(ws)
     return L.cat(*parts)
+
+
+# ----------------------------------------------------------------------
+# ambiguity: exponential degree of ambiguity (EDA) on the Glushkov automaton
+
+class _Glushkov:
+    """Position automaton of a parsed pattern (bounded repeats are unrolled)."""
+
+    def __init__(self, items, dotall=False, icase=False):
+        self.masks = []  # position -> mask
+        self.follow = []  # position -> set(position)
+        self.dotall = dotall
+        nullable, first, last = self._seq(items)
+        self.nullable, self.first, self.last = nullable, first, last
+
+    def _pos(self, mask):
+        self.masks.append(mask)
+        self.follow.append(set())
+        return len(self.masks) - 1
+
+    def _link(self, lasts, firsts):
+        for p in lasts:
+            self.follow[p] |= firsts
+
+    def _seq(self, items):
+        nullable, first, last = True, set(), set()
+        for it in items:
+            n2, f2, l2 = self._item(it)
+            self._link(last, f2)
+            if nullable:
+                first |= f2
+            if n2:
+                last = last | l2
+            else:
+                last = set(l2)
+            nullable = nullable and n2
+        return nullable, first, last
+
+    def _item(self, it):
+        op, av = it
+        if op is sc.LITERAL:
+            p = self._pos(1 << av)
+            return False, {p}, {p}
+        if op is sc.NOT_LITERAL:
+            p = self._pos(FULL & ~(1 << av))
+            return False, {p}, {p}
+        if op is sc.ANY:
+            p = self._pos(FULL if self.dotall else FULL & ~(1 << 10))
+            return False, {p}, {p}
+        if op is sc.IN:
+            p = self._pos(_in_mask(av))
+            return False, {p}, {p}
+        if op is sc.BRANCH:
+            nullable, first, last = False, set(), set()
+            for b in av[1]:
+                n2, f2, l2 = self._seq(b)
+                nullable = nullable or n2
+                first |= f2
+                last |= l2
+            return nullable, first, last
+        if op is sc.SUBPATTERN:
+            return self._seq(av[3])
+        if op in (sc.MAX_REPEAT, sc.MIN_REPEAT):
+            lo, hi, sub = av
+            if hi == sc.MAXREPEAT:
+                # lo copies followed by a starred copy
+                nullable, first, last = True, set(), set()
+                for _ in range(lo):
+                    n2, f2, l2 = self._seq(sub)
+                    self._link(last, f2)
+                    if nullable:
+                        first |= f2
+                    last = (last | l2) if n2 else set(l2)
+                    nullable = nullable and n2
+                n2, f2, l2 = self._seq(sub)
+                self._link(l2, f2)  # the loop
+                self._link(last, f2)
+                if nullable:
+                    first |= f2
+                last = last | l2
+                return nullable, first, last
+            nullable, first, last = True, set(), set()
+            opt_lasts = set()
+            for i in range(hi):
+                n2, f2, l2 = self._seq(sub)
+                self._link(last, f2)
+                if nullable:
+                    first |= f2
+                if i >= lo:
+                    opt_lasts |= last
+                last = (last | l2) if n2 else set(l2)
+                nullable = nullable and (n2 or i >= lo)
+            last = last | opt_lasts
+            if lo == 0:
+                nullable = True
+            return nullable, first, last
+        if op is sc.AT:
+            return True, set(), set()
+        raise AnalysisError("unsupported regex construct %s for ambiguity analysis" % op)
+
+
+def has_exponential_ambiguity(pattern, flags=0):
+    """True iff the pattern's position automaton has EDA (two distinct loops on one state
+    reading the same word) - the source of exponential backtracking. Returns (bool, witness-ish)."""
+    tree = sp.parse(pattern, int(flags))
+    g = _Glushkov(list(tree))
+    n = len(g.masks)
+    # product graph over pairs (p, q)
+    idx = {}
+    succ = {}
+    for p in range(n):
+        for q in range(n):
+            outs = []
+            for p2 in g.follow[p]:
+                for q2 in g.follow[q]:
+                    if g.masks[p2] & g.masks[q2]:
+                        outs.append((p2, q2))
+            succ[(p, q)] = outs
+    # Tarjan SCC (iterative)
+    index = {}
+    low = {}
+    onstack = set()
+    stack = []
+    sccs = []
+    counter = [0]
+    for root in succ:
+        if root in index:
+            continue
+        work = [(root, iter(succ[root]))]
+        index[root] = low[root] = counter[0]
+        counter[0] += 1
+        stack.append(root)
+        onstack.add(root)
+        while work:
+            v, it = work[-1]
+            advanced = False
+            for w in it:
+                if w not in index:
+                    index[w] = low[w] = counter[0]
+                    counter[0] += 1
+                    stack.append(w)
+                    onstack.add(w)
+                    work.append((w, iter(succ[w])))
+                    advanced = True
+                    break
+                elif w in onstack:
+                    low[v] = min(low[v], index[w])
+            if advanced:
+                continue
+            work.pop()
+            if work:
+                u = work[-1][0]
+                low[u] = min(low[u], low[v])
+            if low[v] == index[v]:
+                comp = []
+                while True:
+                    w = stack.pop()
+                    onstack.discard(w)
+                    comp.append(w)
+                    if w == v:
+                        break
+                sccs.append(comp)
+    for comp in sccs:
+        if len(comp) == 1 and comp[0] not in succ[comp[0]]:
+            continue
+        diag = [c for c in comp if c[0] == c[1]]
+        off = [c for c in comp if c[0] != c[1]]
+        if diag and off:
+            return True, {"positions": n, "state": diag[0][0], "other": off[0]}
+    return False, {"positions": n}
